@@ -302,7 +302,8 @@ def _traced_sift(X, *args, **kw):
     if _CUR_JOB is not None and _TRACE_DIR:
         _NCALL += 1
         with open(os.path.join(_TRACE_DIR, '%d.ndjson' % os.getpid()), 'a') as f:
-            f.write(_json.dumps({'job': int(_CUR_JOB), 'pid': os.getpid(), 'call': _NCALL,
+            import time as _time
+            f.write(_json.dumps({'job': int(_CUR_JOB), 'pid': os.getpid(), 'call': _NCALL, 't': _time.monotonic_ns(),
                                  'x': [float(v) for v in np.asarray(X).ravel()]}) + '\n')
     return _ORIG['sift'](X, *args, **kw)
 
